@@ -82,6 +82,19 @@ class CursorRule(SymRule):
         lv, rv = self.value(l, ts), self.value(r, ts)
         if lv is None or rv is None:
             return ts
+        # unsigned wrap-around: a comparison whose operand is a SUM containing a 64-bit quantity decoded from the
+        # input proves nothing (the sum can wrap); the subtraction form `v > limit - cursor` does not have that
+        # problem as long as cursor <= limit, which the decoder guarantees
+        for side in (l, r):
+            ss = strip(side)
+            if ss is not None and ss.k == 'bin' and ss.op == '+':
+                for n in walk(ss):
+                    if n.k == 'var' and n.op not in (self.cursor, self.limit):
+                        v = self.value(n, ts)
+                        from ..ir import type_width
+                        if v is not None and any('#' in k for k in v.t) and type_width(n.t, n.dt) == 64:
+                            self.wrap_skipped = getattr(self, 'wrap_skipped', 0) + 1
+                            return ts
         new = None
         if op == '<=':
             new = lv - rv
@@ -163,6 +176,50 @@ class CursorRule(SymRule):
         return ts
 
 
+def cursor_clauses(ck, prog, config, ca='C03-a', cb='C03-b'):
+    """Parse-cursor discipline of the four header parsers (shared with C13-d)."""
+    # completeness of the parser table
+    for fn in prog.lib_funcs():
+        if fn.name in ('compint_to_int',):
+            continue
+        if calls_of(fn, DECODERS) and fn.name not in PARSERS:
+            ck.require(False, 'function %s decodes compressed integers but is not in the parser table' % fn.name)
+    total_reads = total_adv = total_dec = 0
+    for name, (base, cursor, limit) in sorted(PARSERS.items()):
+        fn = prog.need_func(name)
+        r = CursorRule(prog, fn, base, cursor, limit)
+        ck.require(base in r.var and cursor in r.var and limit in r.var,
+                   '%s: base/cursor/limit (%s, %s, %s) not found' % (name, base, cursor, limit))
+        run_rule(prog, fn, r)
+        total_reads += r.reads
+        total_adv += r.advances
+        total_dec += r.decodes
+        by = {}
+        for v in r.violations:
+            by.setdefault(v.inst, v)
+        if not by:
+            ck.ob(ca, 'R5.cursor', name, 'cursor-discipline', True,
+                  '%d raw read state(s), %d cursor advance(s), %d decoder call state(s): every one within the limit '
+                  '%s' % (r.reads, r.advances, r.decodes, limit), fn.file, fn.line, config=config,
+                  sample={'parser': name, 'base': base, 'cursor': cursor, 'limit': limit, 'raw_reads': r.reads,
+                          'advances': r.advances, 'decoder_calls': r.decodes})
+        for inst, v in sorted(by.items()):
+            clause = cb if inst.startswith('decode') else ca
+            ck.ob(clause, 'R5.cursor', name, inst, False, v.msg, v.node.file, v.node.line, path=v.path,
+                  config=config)
+        # limit object width
+        lv = r.var[limit]
+        w = type_width(lv.t, lv.dt)
+        okw = w == 64 and is_unsigned_type(lv.t, lv.dt)
+        if name == 'read_lead':
+            okw = True   # constant 5 + 2*MAX_COMP_SIZE (+ digest size), an int is wide enough
+        ck.ob(cb, 'R9.width', name, 'limit:%s' % limit, okw,
+              'limit %s has type %s' % (limit, lv.t) + ('' if okw else ': a header size above INT_MAX is narrowed'),
+              lv.file, lv.line, config=config)
+    ck.min_instances('raw reads in the parsers', total_reads, 5)
+    ck.min_instances('decoder calls in the parsers', total_dec, 13)
+
+
 def run(ctx):
     ck = ctx.check
     ck.explanation = (
@@ -176,46 +233,7 @@ def run(ctx):
                     'absence of hangs', 'safety of zstd / OpenSSL']
     for config in ctx.configs():
         prog = ctx.prog(config)
-        # completeness of the parser table
-        for fn in prog.lib_funcs():
-            if fn.name in ('compint_to_int',):
-                continue
-            if calls_of(fn, DECODERS) and fn.name not in PARSERS:
-                ck.require(False, 'function %s decodes compressed integers but is not in the parser table' % fn.name)
-        total_reads = total_adv = total_dec = 0
-        for name, (base, cursor, limit) in sorted(PARSERS.items()):
-            fn = prog.need_func(name)
-            r = CursorRule(prog, fn, base, cursor, limit)
-            ck.require(base in r.var and cursor in r.var and limit in r.var,
-                       '%s: base/cursor/limit (%s, %s, %s) not found' % (name, base, cursor, limit))
-            run_rule(prog, fn, r)
-            total_reads += r.reads
-            total_adv += r.advances
-            total_dec += r.decodes
-            by = {}
-            for v in r.violations:
-                by.setdefault(v.inst, v)
-            if not by:
-                ck.ob('C03-a', 'R5.cursor', name, 'cursor-discipline', True,
-                      '%d raw read state(s), %d cursor advance(s), %d decoder call state(s): every one within the limit '
-                      '%s' % (r.reads, r.advances, r.decodes, limit), fn.file, fn.line, config=config,
-                      sample={'parser': name, 'base': base, 'cursor': cursor, 'limit': limit, 'raw_reads': r.reads,
-                              'advances': r.advances, 'decoder_calls': r.decodes})
-            for inst, v in sorted(by.items()):
-                clause = 'C03-b' if inst.startswith('decode') else 'C03-a'
-                ck.ob(clause, 'R5.cursor', name, inst, False, v.msg, v.node.file, v.node.line, path=v.path,
-                      config=config)
-            # limit object width
-            lv = r.var[limit]
-            w = type_width(lv.t, lv.dt)
-            okw = w == 64 and is_unsigned_type(lv.t, lv.dt)
-            if name == 'read_lead':
-                okw = True   # constant 5 + 2*MAX_COMP_SIZE (+ digest size), an int is wide enough
-            ck.ob('C03-b', 'R9.width', name, 'limit:%s' % limit, okw,
-                  'limit %s has type %s' % (limit, lv.t) + ('' if okw else ': a header size above INT_MAX is narrowed'),
-                  lv.file, lv.line, config=config)
-        ck.min_instances('raw reads in the parsers', total_reads, 5)
-        ck.min_instances('decoder calls in the parsers', total_dec, 13)
+        cursor_clauses(ck, prog, config)
         # callers that compute a limit and pass it on (read_index -> index_read)
         ri = prog.need_func('read_index')
         for c in calls_of(ri, ('index_read',)):
@@ -317,6 +335,11 @@ def run(ctx):
                       'division by %s, a count read from the file that may be 0 (SIGFPE on a header claiming 0 chunks)'
                       % show(n.a[1]), n.file, n.line, config=config)
         ck.min_instances('divisions by file-supplied values in the tools', ndiv, 1)
+        # ---- g  conditionally allocated digests; stored-then-freed pointers
+        from ..rules import extra
+        nk = extra.check_nullable_key(ck, prog, config, 'C03-g')
+        ck.min_instances('uses of the conditionally allocated uncompressed digest', nk, 2)
+        extra.check_own_then_free(ck, prog, config, 'C03-g')
         # ---- f  the integer decoder every parser relies on (same analysis as C20-a..c)
         from . import c20
         c20.decoder(ck, prog, config, ca='C03-f', cb='C03-f', cc='C03-f', cd='C03-f')
